@@ -53,7 +53,7 @@ WIDE = dict(null_lit=False, inl_null=False, mod="const", touch_all=False, const_
             agg_const=True, distinct_order=True, not_in_sub=True, sub_top_only=False, sel_needs_col=False)
 
 
-def signature(q, failure):
+def signature(q, failure, where="?"):
     """Known classes of planning failures of the unchanged tree (known_findings.json)."""
     f = S.q_features(q) if q is not None else set()
     if "with overflow" in failure or "invalid digit" in failure or "divisor of zero" in failure:
@@ -65,6 +65,53 @@ def signature(q, failure):
     if any(x in f for x in ("join:right", "join:full", "join:left")) and "not found from input" in failure:
         return "Q10"
     return None
+
+
+SUBQ_DB = {"t1": [[1, 1, "a"], [2, 2, "b"], [2, 2, "b"], [3, None, "ab"], [None, 0, ""]],
+           "t2": [[1, 5, "a"], [2, 0, None], [4, 1, "b"]],
+           "t3": [[1, 1], [2, 3], [2, None], [5, 0]]}
+
+
+def subquery_corpus():
+    """A fixed (seed-independent) family of subquery shapes: kind x correlation x inner filter x position in the
+    outer query x outer FROM.  The (configuration, statement) pairs of this family that fail on the unchanged
+    tree are listed one by one in known_subquery_failures.json (finding Q8); any other failure is a violation."""
+    subs = []
+    for w in ("", " where y.b > 1"):
+        subs += [f"x1.a in (select y.a from t3 as y{w})", f"x1.a not in (select y.a from t3 as y{w})",
+                 f"exists (select 1 from t3 as y{w})", f"not exists (select 1 from t3 as y{w})"]
+        for f in ("max", "count", "sum"):
+            subs.append(f"x1.b = (select {f}(y.b) from t3 as y{w})")
+    subs += ["x1.a in (select y.a from t3 as y where y.b = x1.b)",
+             "x1.a not in (select y.a from t3 as y where y.b = x1.b)",
+             "exists (select 1 from t3 as y where y.a = x1.a)", "exists (select 1 from t3 as y where y.a < x1.a)",
+             "exists (select 1 from t3 as y where y.a = x1.a and y.b > 0)",
+             "not exists (select 1 from t3 as y where y.a = x1.a)",
+             "x1.b >= (select count(y.b) from t3 as y where y.a = x1.a)",
+             "x1.b < (select max(y.b) from t3 as y where y.a = x1.a)",
+             "x1.b > (select y.a * sum(y.b) from t3 as y where y.a = x1.a group by y.a)",
+             "x1.b < (select y.a + count(*) from t3 as y where y.a = x1.a group by y.a)",
+             "x1.b = (select max(y.b) from t3 as y group by y.a having y.a = 1)"]
+    outers = ["select x1.a, x1.b from t1 as x1 where {P}",
+              "select x1.a, x2.b from t1 as x1 join t2 as x2 on x1.a = x2.a where {P}"]
+    pos = ["{S}", "{S} and x1.b > 0", "({S} or x1.b > 1)", "not ({S})"]
+    out = []
+    for o in outers:
+        for p in pos:
+            for sq in subs:
+                out.append(o.replace("{P}", p.replace("{S}", sq)))
+    out += ["select x1.a, (select max(y.b) from t3 as y) from t1 as x1",
+            "select x1.a, (select count(*) from t3 as y where y.a = x1.a) from t1 as x1",
+            "select x1.a, (select y.a + sum(y.b) from t3 as y where y.a = x1.a group by y.a) from t1 as x1",
+            "select x1.a from t1 as x1 where x1.a in (select y.a from t3 as y where y.b in (select z.b from t2 as z))"]
+    return out
+
+
+def known_subquery_failures():
+    p = os.path.join(ROOT, "known_subquery_failures.json")
+    if not os.path.exists(p):
+        return set()
+    return set(json.load(open(p))["failing"])
 
 
 def slt_statements(path):
@@ -109,6 +156,14 @@ def check_c17(args):
             steps = [{"sql": s} for s in G.setup_sql(c["db"], G.TABLES)]
             steps.append({"sql": c["sql"], "plans": PLAN_CFGS if eng == "mem" else []})
             runs.append({"id": f"g{i}.{eng}", "engine": eng, "steps": steps})
+    # ---- the fixed subquery family
+    subq = subquery_corpus()
+    known_subq = known_subquery_failures()
+    for i, sql in enumerate(subq):
+        for eng in ("mem", "disk"):
+            steps = [{"sql": s} for s in G.setup_sql(SUBQ_DB, G.TABLES)]
+            steps.append({"sql": sql, "plans": PLAN_CFGS if eng == "mem" else []})
+            runs.append({"id": f"s{i}.{eng}", "engine": eng, "steps": steps})
     # ---- the repository's own corpus
     corpus = []
     for path in sorted(glob.glob("/repo/tests/sql/*.slt")):
@@ -135,7 +190,18 @@ def check_c17(args):
         stats["kinds"][kind] = stats["kinds"].get(kind, 0) + 1
 
     def failure(qinfo, q, what, msg, known_ok=True):
-        sig = signature(q, msg) if known_ok else None
+        where = qinfo.get("config") or ("exec." + qinfo.get("engine", "?"))
+        if qinfo.get("source") == "subquery-family":
+            key = f"{where}|{qinfo['sql']}"
+            stats.setdefault("subq_failures", set()).add(key)
+            if key in known_subq and v.is_known("Q8"):
+                v.note_known("Q8")
+                note("known:Q8 (listed input)")
+            else:
+                v.violation(dict(qinfo, failure=what, message=msg),
+                            f"{what} [{where}]: {msg[:140]} -- {qinfo['sql'][:220]} (not among the listed failing inputs of Q8)")
+            return
+        sig = signature(q, msg, where) if known_ok else None
         if sig and v.is_known(sig):
             v.note_known(sig)
             note(f"known:{sig}")
@@ -144,11 +210,13 @@ def check_c17(args):
 
     for run, out in zip(runs, outs):
         rid = run["id"]
-        gen = rid.startswith("g")
+        fam = rid.startswith("s")
+        gen = rid.startswith("g") or fam
         idx = int(rid[1:].split(".")[0])
         if out.get("hang"):
-            q = cases[idx]["q"] if gen else None
-            failure({"sql": run["steps"][-1]["sql"] if gen else corpus[idx][0], "engine": run["engine"]}, q,
+            q = cases[idx]["q"] if gen and not fam else None
+            failure({"sql": run["steps"][-1]["sql"] if gen else corpus[idx][0], "engine": run["engine"],
+                     "source": "subquery-family" if fam else "other"}, q,
                     "planning or execution did not terminate", f"no result within {out.get('limit_s')} s")
             continue
         if "fatal" in out:
@@ -160,8 +228,9 @@ def check_c17(args):
                 (not gen and st["sql"].lower().lstrip().startswith("select"))
             if not is_query:
                 continue
-            q = cases[idx]["q"] if gen else None
-            qinfo = {"sql": st["sql"], "engine": run["engine"], "source": "generated" if gen else corpus[idx][0]}
+            q = cases[idx]["q"] if gen and not fam else None
+            qinfo = {"sql": st["sql"], "engine": run["engine"],
+                     "source": "subquery-family" if fam else ("generated" if gen else corpus[idx][0])}
             stats["executions"] += 1
             if not r["ok"] and r.get("panic") and any(p in str(r.get("err")) for p in PLANNING_PANICS):
                 failure(qinfo, q, "statement panicked", str(r.get("err")))
@@ -211,6 +280,9 @@ def check_c17(args):
         os.remove(os.path.join(WORK, f"planwf-{os.getpid()}.ndjson"))
     except OSError:
         pass
+    if os.environ.get("VERIF_RECORD_SUBQ"):
+        # maintenance aid (never used by a registered check): dump the failing pairs of the subquery family
+        json.dump({"failing": sorted(stats.get("subq_failures", ()))}, open(os.environ["VERIF_RECORD_SUBQ"], "w"), indent=0)
     rc = v.finish()
     write_evidence("C17", tier, seed, "translation_validation", {
         "programs": stats["plans"], "disagreements_checked": len(v.violations) + sum(n for k, n in stats["kinds"].items() if k.startswith("known")),
@@ -221,6 +293,8 @@ def check_c17(args):
                 "configurations (memory-like, disk-like, two mocked statistics); TLC evaluates WellFormed of PlanWF.tla "
                 "on each optimized plan; every statement is also executed on both engines under a 60 s watchdog",
         "optimized_plans_checked_by_tlc": len(plan_recs), "corpus_files": len(corpus),
+        "subquery_family": {"statements": len(subq), "failing_pairs_seen": len(stats.get("subq_failures", ())),
+                            "failing_pairs_listed": len(known_subq)},
         "by_kind": stats["kinds"], "known_findings_seen": sorted(v.seen_known)},
         ["plans are read as s-expressions of planner::Expr; Schema() in PlanWF.tla is a transcription of "
          "planner/rules/schema.rs", "planning failures of queries with subqueries, of DISTINCT + ORDER BY and of outer "
